@@ -19,7 +19,7 @@ from concurrent.futures import ThreadPoolExecutor
 TARGETS = {
     # file: {function: [checks]}
     'tweakwcs/linearfit.py': {
-        'iter_linear_fit': ['C07', 'C06', 'C09', 'C08'], 'fit_shifts': ['C06', 'C09'], 'fit_rscale': ['C06', 'C08', 'C17'],
+        'iter_linear_fit': ['C07', 'C06', 'C09', 'C08', 'C10'], 'fit_shifts': ['C06', 'C09', 'C10'], 'fit_rscale': ['C06', 'C08', 'C17'],
         'fit_general': ['C06', 'C17', 'C09'], '_compute_stat': ['C10', 'C07'], '_build_fit': ['C10'],
         'build_fit_matrix': ['C10']},
     'tweakwcs/linalg.py': {'inv': ['C17', 'C06']},
@@ -28,7 +28,7 @@ TARGETS = {
     'tweakwcs/imalign.py': {'align_wcs': ['C13', 'C14', 'C15'], '_max_overlap_pair': ['C15'],
                             '_max_overlap_image': ['C15', 'C14']},
     'tweakwcs/wcsimage.py': {'convex_hull': ['C16'], 'fit2ref': ['C01', 'C09'], 'align_to_ref': ['C13', 'C01'],
-                             'expand_catalog': ['C14'], 'get_unmatched_cat': ['C14'], 'match2ref': ['C11', 'C13'],
+                             'expand_catalog': ['C14'], 'get_unmatched_cat': ['C14'], 'match2ref': ['C11', 'C13', 'C14'],
                              '_calc_cat_convex_hull': ['C16'], 'apply_affine_to_wcs': ['C05', 'C13']},
     'tweakwcs/correctors.py': {'set_correction': ['C02', 'C04', 'C18'], '_tpcorr_combine_affines': ['C04', 'C02', 'C03'],
                                '_tp2tp': ['C05', 'C02'], '_linearize': ['C02', 'C18'], 'tanp_pixel_scale': ['C20'],
